@@ -631,8 +631,10 @@ def _members_through_helper(ctx: Ctx, rep: Report, f: Func, q: str) -> bool:
 
 def r12_5(ctx: Ctx, rep: Report) -> None:  # noqa: C901
     rep.rule("R12.5")
+    from .normalise import normalised as _nrm
+
     for q in ("AddrGroup.line.setter", "AddrGroup.items.setter"):
-        f = ctx.func(q)
+        f = _nrm(ctx, ctx.func(q), "gencalls")  # a member loop moved into a generator that is drained by list()
         cfg = ctx.cfg(f)
         loops = [n for n in cfg.live if n.kind == "for"]
         if not loops and _members_through_helper(ctx, rep, f, q):
@@ -730,9 +732,16 @@ def r12_6(ctx: Ctx, rep: Report) -> None:
                 lits.add(v)
             elif isinstance(v, (tuple, list)):
                 lits |= set(v)
+        # `any(map(line.startswith, (<prefixes>)))`: the bound method applied to each constant
+        if isinstance(n, ast.Call) and isinstance(n.func, ast.Name) and n.func.id == "map" and len(n.args) == 2 and isinstance(n.args[0], ast.Attribute) and n.args[0].attr == "startswith":
+            seq = ctx.folder.fold(n.args[1], f.module, ctx.folder.local_env(f))
+            if isinstance(seq, (tuple, list, set, frozenset)) and all(isinstance(x, str) for x in seq):
+                lits |= set(seq)
     rep.instance()
     want = {a + " " for a in actions}
-    if lits == want:
+    if not lits:
+        rep.note("R12.6 helpers.is_line_for_acl tests no literal prefix with startswith - the accepted prefixes are not in a form this rule reads, not judged")
+    elif lits == want:
         rep.ok("helpers.is_line_for_acl", f"prefixes {sorted(lits)} = ACTIONS + blank", where=where(f))
     else:
         miss, extra = sorted(want - lits), sorted(lits - want)
@@ -762,10 +771,11 @@ def run(ctx: Ctx, rep: Report, tier: str) -> None:
     no_dedup_collection(ctx, rep)
     classifier_ignores_values(ctx, rep)
     # R12.16 an ACL built from text with group_by goes through Acl.group: every parsed line is placed in a block (C15 R15.1)
-    from .c15 import r15_1
+    from .c15 import r15_1, r15_2
 
     sub15 = Report("C12")
     r15_1(ctx, sub15)
+    r15_2(ctx, sub15)  # ... one block per heading, stored in the order the headings stand in the text
     rep.absorb(sub15, "R12.16")
     # R12.14 premises: a builder parses under the settings the object has NOW (no snapshot of them outlives a change:
     # C17 R17.6), and assigning a text always parses it (every normal path of a line setter stores what the other paths
